@@ -2,14 +2,11 @@
 
 from __future__ import annotations
 
-import os
-
 import numpy as np
 from hypothesis import strategies as st
 
 import mujoco
 import mujoco_warp as mjw
-from mujoco_warp._src.types import OverflowType as OT
 
 from vf import mjw as H
 from vf.core import Reject, check_close, check_equal
@@ -31,7 +28,7 @@ ASSUMPTIONS = [
   "contacts within 1e-4 of the inclusion margin are boundary-skipped; a MuJoCo flex pair truncated at mjMAXCONPAIR=50 is not used for the one-sided comparison",
   "tolerances: positions/lengths 2e-5*scale, edge velocity/J 1e-4, passive forces 5e-4*scale, rows J 5e-4 / pos 1e-4 / D, aref 2e-3 relative, contact geometry 1e-4 (plane, 1D) and 2e-3 (element narrow phase)",
 ]
-BUDGET = {"quick": dict(examples=320, seconds=150, workers=16), "thorough": dict(examples=6000, seconds=1500, workers=16)}
+BUDGET = {"quick": dict(examples=200, seconds=150, workers=16), "thorough": dict(examples=12000, seconds=1500, workers=16)}
 
 _CONTACT_TYPES = (5, 6, 7)
 _NCONMAX, _NJMAX = 600, 2400
@@ -450,7 +447,10 @@ def _compare_contacts(rec, mjm, cw, cm, ctx):
     if not W:
       continue
     dW, dM = min(c["dist"] for c in W), min(c["dist"] for c in M)
-    if not missing and not any(near(c) for c in W + M):
+    gbox = cl == "g1d" and gid and int(mjm.geom_type[gid[0]]) == int(mujoco.mjtGeom.mjGEOM_BOX)
+    if gbox:
+      rec.cls("contacts:g1d:box-deepest-not-judged")  # MuJoCo's capsule-box primitive can miss the deeper end of an edge capsule lying on a box face
+    if not missing and not gbox and not any(near(c) for c in W + M):
       rec.err(f"contact.deepest({cl})", abs(dW - dM) if cl != "g1d" else max(0.0, dM - dW))
       # a vertex sphere of a 1D flex is never deeper than the edge capsules it belongs to; otherwise the deepest penetrations agree
       bad = (dW < dM - 2e-3) if cl == "g1d" else abs(dW - dM) > 2e-3
@@ -471,7 +471,10 @@ def _compare_contacts(rec, mjm, cw, cm, ctx):
       dot = float(np.dot(a["normal"], b["normal"]))
       if (a["s0"][0] >= 0) != (b["s0"][0] >= 0):
         dot = -dot
-      if dot < -0.9 and cl in ("selfnd", "self1d") and (a["s0"], a["s1"]) != (b["s0"], b["s1"]):
+      if dot < -0.9 and cl == "selfnd" and abs(b["dist"] + 2.0 * float(mjm.flex_radius[0])) < 1e-4:
+        rec.cls("contacts:selfnd:coplanar-overlap")  # coplanar overlapping elements (dist = -2r): the sign of the normal is arbitrary
+        identical = False
+      elif dot < -0.9 and cl in ("selfnd", "self1d") and (a["s0"], a["s1"]) != (b["s0"], b["s1"]):
         rec.cls(f"contacts:{cl}:other-pair")  # another element pair at the same point: the orientation is not comparable
         identical = False
       elif dot < -0.9:
@@ -485,6 +488,7 @@ def _compare_contacts(rec, mjm, cw, cm, ctx):
       if (a["s0"], a["s1"]) == (b["s0"], b["s1"]) and dot >= 1 - 5e-3 and b["id"] not in idmap.values():
         idmap[a["id"]] = b["id"]
         if cl == "self1d":
+          a["axisdist"] = 2.0 * float(mjm.flex_radius[0]) + b["dist"]
           _cmp_geometry(rec, cl, a, b, 1e-4, ctx)  # capsule-capsule primitive on both sides
   return identical and len(cw) == len(cm) and len(idmap) == len(cw), idmap
 
@@ -493,7 +497,10 @@ def _cmp_geometry(rec, cl, a, b, tol, ctx):
   check_close(rec, f"contact.dist({cl})", a["dist"], b["dist"], tol, scale=1.0, sig=f"contacts:{cl}:dist", **ctx)
   check_close(rec, f"contact.pos({cl})", a["pos"], b["pos"], tol, scale=1.0, sig=f"contacts:{cl}:pos", **ctx)
   # capsule-capsule normals of deeply overlapping, nearly touching axes are ill-conditioned: CCD-level tolerance for 1D self-collision
-  check_close(rec, f"contact.normal({cl})", a["normal"], b["normal"], 2e-3 if cl == "self1d" else max(tol, 2e-4), scale=1.0, sig=f"contacts:{cl}:normal", **ctx)
+  ntol = max(tol, 2e-4)
+  if cl == "self1d":
+    ntol = min(0.1, max(2e-3, 2e-4 / max(a.get("axisdist", 1.0), 1e-4)))  # closest points of two capsule axes a distance h apart: normal error ~ pos error / h
+  check_close(rec, f"contact.normal({cl})", a["normal"], b["normal"], ntol, scale=1.0, sig=f"contacts:{cl}:normal", **ctx)
 
 
 def _cmp_params(rec, cl, a, b, ctx):
@@ -564,16 +571,7 @@ def _match_equality_rows(ew, em):
 # --------------------------------------------------------------------------------------
 
 
-def _dev_known(rec):
-  """Development aid: VF_C40_TREAT_AS_KNOWN=sig1,sig2 counts those signatures like listed findings (never set by the runner)."""
-  extra = os.environ.get("VF_C40_TREAT_AS_KNOWN", "")
-  for s in extra.split(","):
-    if s and s not in rec.known_sigs:
-      rec.known_sigs[s] = {"sig": s}
-
-
 def check(case, rec):
-  _dev_known(rec)
   mjm, info = build(case)
   if mjm.nflex != 1 or mjm.nv == 0:
     raise Reject("no flex / nv=0")
@@ -647,6 +645,10 @@ def check(case, rec):
       continue
     # ---- passive forces
     fscale = max(1.0, float(np.max(np.abs(mjd.qfrc_passive))), float(np.max(np.abs(mjd.qfrc_spring))), float(np.max(np.abs(mjd.qfrc_damper))))
+    if mjm.nflexstiffness:
+      # elastic forces are stiffness * (deformed^2 - reference^2) * edge: the float32 cancellation noise (seen 3e-3 at rest with max stiffness 7e5) scales with
+      # stiffness * L^2, not with the force: floor the scale accordingly (a 1 % strain still gives forces ~20x this floor)
+      fscale = max(fscale, 1e-3 * float(np.max(np.abs(mjm.flex_stiffness))) * float(np.max(mjm.flexedge_length0)) ** 2 * (1.0 + float(np.max(mjm.flex_damping)) / mjm.opt.timestep))
     passive_ok = True
     for k in ("qfrc_spring", "qfrc_damper", "qfrc_passive"):
       e = _relerr(got[k][w], getattr(mjd, k), fscale)
@@ -732,7 +734,8 @@ def check(case, rec):
               if e > 5e-4:
                 rows_ok = False
                 rec.violation(f"contact rows ({gname}): efc.J differs from MuJoCo by {e:.3g}: {_GROUP_TEXT[gname]}", sig=f"rows:contact:{gname}", **ctx)
-                continue
+              # the weights of these groups are approximations by design: vel/aref/D inherit a J difference that may sit just inside the J tolerance
+              continue
             _cmp_rows(rec, ew, em, ciw[sel], cim[sel], "contact", ctx, elliptic_friction=cell[sel])
       else:
         rows_ok = False
